@@ -32,6 +32,20 @@ def gen_cases(tier, rng):
     for t in small[::3]:
         cases.append({"terms": [rtgen.copy(t)], "hist": [[0, "send", 9], [0, "cur"], [0, "send", 8], [0, "mn"], [0, "res"], [0, "mn"]],
                       "budget": 40})
+    # targeted terms: one inner loop VALUE with a post statement, run once per outer iteration and left by break / return
+    # (state that a For value keeps between two of its runs shows here)
+    N_ = {"k": "sig", "t": "normal"}
+    for leave in ({"k": "sig", "t": "break"}, {"k": "sig", "t": "continue"}):
+        inner = {"k": "for", "c": {"id": 0, "acts": [], "e": ["lt", 1, 9]}, "p": {"id": 0, "acts": [["add", 1, 1], ["log", 3]]},
+                 "b": {"k": "combine", "a": {"k": "bind", "v": ["reg", 1], "id": 0, "acts": [["log", 2]], "body": N_}, "b": leave if leave["t"] == "break" else
+                       {"k": "combine", "a": {"k": "for", "c": {"id": 0, "acts": [], "e": ["lt", 1, 2]}, "p": None, "b": leave}, "b": {"k": "sig", "t": "break"}}}}
+        outer = {"k": "for", "c": {"id": 0, "acts": [["add", 0, 1]], "e": ["lt", 0, 4]}, "p": None, "b": inner}
+        cases.append({"terms": [rtgen.assign_ids(rtgen.copy(outer))], "hist": [[0, "mn"], [0, "cur"]] * 8 + [[0, "res"]], "budget": 80})
+    inner = {"k": "for", "c": {"id": 0, "acts": [], "e": ["lt", 1, 9]}, "p": {"id": 0, "acts": [["add", 1, 1], ["log", 3]]},
+             "b": {"k": "delay", "id": 0, "acts": [["log", 5]], "body": {"k": "sig", "t": "break"}}}
+    outer = {"k": "for", "c": {"id": 0, "acts": [["add", 0, 1]], "e": ["lt", 0, 4]}, "p": {"id": 0, "acts": [["log", 6]]},
+             "b": {"k": "combine", "a": inner, "b": {"k": "bind", "v": ["reg", 0], "id": 0, "acts": [], "body": N_}}}
+    cases.append({"terms": [rtgen.assign_ids(rtgen.copy(outer))], "hist": [[0, "mn"], [0, "cur"]] * 8 + [[0, "res"]], "budget": 80})
     return cases, len(small)
 
 
